@@ -238,8 +238,10 @@ func (h *handler) Handle(req map[string]interface{}) interface{} {
 			}
 		}
 	}
-	logic.VerifTap = rec.tap
-	defer func() { logic.VerifTap = nil }()
+	if nt, _ := req["notrace"].(bool); !nt {
+		logic.VerifTap = rec.tap
+		defer func() { logic.VerifTap = nil }()
+	}
 	ctx, cancel := context.WithCancel(context.Background())
 	defer cancel()
 	rows := []interface{}{}
